@@ -148,6 +148,8 @@ LAWS = [
     Law("slice-from", "ȯ", 2, lambda xs, k: xs[k:], pre=lambda xs, k: isinstance(k, int) and 0 <= k),
     Law("slice-to", "Ẏ", 2, lambda xs, k: xs[:k], pre=lambda xs, k: isinstance(k, int) and 0 <= k),
     # nested
+    Law("sum-of-rows", "∑", 1, None),             # handled specially: rows of equal length, element-wise fold
+    Law("cumulative-sums-of-rows", "¦", 1, None), # handled specially
     Law("flatten-nested", "f", 1, None),   # handled specially
     Law("transpose", "∩", 1, None),        # handled specially
 ]
@@ -193,6 +195,14 @@ def check(name, args, lazy):
         nested = [xs[:1], [xs[1:3], xs[3:4]], xs[4:]]
         want = [xs]
         call = [nested]
+    elif name in ("sum-of-rows", "cumulative-sums-of-rows"):
+        rows = _chunks(xs, 2)
+        if len(xs) < 4 or len(rows[-1]) != 2:
+            return None
+        acc = [list(itertools.accumulate(col)) for col in zip(*rows)]       # column-wise running sums
+        running = [[acc[0][i], acc[1][i]] for i in range(len(rows))]
+        want = [running[-1]] if name == "sum-of-rows" else [running]
+        call = [rows]
     elif name == "transpose":
         k = args[1]
         if not isinstance(k, int) or k < 1:
@@ -244,6 +254,8 @@ def _do(rec, name, args, lazy, cls):
 def _all_laws_on(rec, xs, cls, seconds=SECOND):
     for law in LAWS:
         if law.arity == 1 and law.name not in ("transpose",):
+            if law.name in ("sum-of-rows", "cumulative-sums-of-rows") and len(xs) < 4:
+                continue
             if law.name in ("permutations",) and len(xs) > 5:
                 continue
             if law.name in ("powerset", "sublists") and len(xs) > 8:
@@ -267,6 +279,16 @@ def _shard_exh(rec, arg):
             if i % nshards != shard:
                 continue
             _all_laws_on(rec, list(tup), "exhaustive")
+    # rows: the fold laws on lists of lists (element-wise addition)
+    j = 0
+    for alphabet, L in (((-1, 0, 2), 4), ((0, 1), 6)):
+        for tup in itertools.product(alphabet, repeat=L):
+            j += 1
+            if j % nshards != shard:
+                continue
+            for nm in ("sum-of-rows", "cumulative-sums-of-rows"):
+                for lazy in (False, True):
+                    _do(rec, nm, [list(tup)], lazy, "exhaustive-rows")
     if shard == 0:
         rec.sample({"xs": [3, 1, 2, 1], "law": "grade-up", "expected": sorted(range(4), key=lambda i: [3, 1, 2, 1][i])})
         rec.sample({"xs": [1, 1, 0], "second": [1, 5], "law": "zip", "expected": [[1, 1], [1, 5], [0, 0]]})
